@@ -252,6 +252,12 @@ def rule_crh(ctx):
             st0 = lp.body[0]
             a0, a1 = st0.value.args
             tgt0 = st0.targets[0]
+            from ..flow import elementwise
+            eb = elementwise(lp.target, lp.iter) or {}
+            if isinstance(a0, ast.Name) and a0.id in eb and isinstance(eb[a0.id], ast.Subscript):
+                a0 = eb[a0.id]                       # `for i, e in enumerate(es)`: e is es[i]
+                iv = next((k_ for k_, v_ in eb.items() if norm(v_) == "_i"), iv)
+                a0 = ast.Subscript(value=a0.value, slice=ast.Name(id=iv, ctx=ast.Load()), ctx=ast.Load())
             if isinstance(a0, ast.Subscript) and isinstance(a0.value, ast.Name) and isinstance(tgt0, ast.Subscript) and isinstance(tgt0.value, ast.Name):
                 esname = a0.value.id
                 ok_fill = norm(a0.slice) == iv and norm(tgt0.slice) == iv and norm(a1) == "%s[%s]" % (pn, iv)
@@ -262,6 +268,8 @@ def rule_crh(ctx):
         rc = lp.iter
         if isinstance(rc, ast.Call) and dotted(rc.func) == "range":
             bound = rc.args[-1] if len(rc.args) <= 2 else None
+        elif isinstance(rc, ast.Call) and dotted(rc.func) == "enumerate" and len(rc.args) == 1 and norm(rc.args[0]) == esname:
+            bound = ast.parse("len(%s)" % esname, mode="eval").body          # one pass per element along the first axis
     ctx.ob("column_relative_humidity.levelwise", ok_fill, "loop body: %s" % ([norm(s) for s in loops[0].body] if loops else None),
            "qs[i] = water_vapor_pressure2specific_humidity(es[i], p[i]) for every level i", node=loops[0] if loops else f.node, func=f)
     # shape model of the loop bound
@@ -281,6 +289,12 @@ def rule_crh(ctx):
     if isinstance(vs_arg, ast.Name):
         feeds = vs_arg.id == tname or any(d_ != "param" and any(isinstance(n_, ast.Name) and n_.id == tname for n_ in ast.walk(d_.value))
                                             for d_ in flow.defs(vs_arg.id, vs) if hasattr(d_, "value"))
+        if not feeds:
+            # the loop fills a VIEW of it: <filled> = <vs_arg>.swapaxes(...)
+            for d_ in flow.defs(tname, loops[0]):
+                if d_ != "param" and hasattr(d_, "value") and isinstance(d_.value, ast.Call) and isinstance(d_.value.func, ast.Attribute) \
+                        and d_.value.func.attr in ("swapaxes", "transpose", "view", "reshape") and norm(d_.value.func.value) == vs_arg.id:
+                    feeds = True
     ctx.ob("column_relative_humidity.qs_used", feeds, "vmrs = %s; level loop fills %s" % (norm(vs.value) if vs is not None else None, tname),
            "the saturation vmr is computed from the level-wise q_s", node=vs or f.node, func=f)
     ctx.ob("column_relative_humidity.levels", not bad, "loop bound %s; mismatches: %s" % (norm(bound), bad or "none"),
